@@ -45,7 +45,7 @@ E2E_RULE = ("e2e: the real client.Broker with the real store.Local, cache.JSON, 
             "bytes, chunk <= payload, delete on/off; profiles: plain, faults, stop (graceful/now at a random interface-event index incl. right after start), "
             "crash (sender frozen at a random interface-event index incl. its cache writes, new Broker on the persisted cache), reuse (a name used again after "
             "release), mutate (file rewritten while queued), swap (replaced by a same-size version with an mtime 400 ms later in the same second, right after its "
-            "last byte was received and before the answer returns, scanner slowed to 400 ms), stopfail (one-shot run in which every file fails validation and the first poll "
+            "last byte was received and before the answer returns, scanner slowed to 400 ms), stophash (an immediate stop while the k-th of 30..60 files is opened for hashing: more hash batches than the workers' channel holds), stopfail (one-shot run in which every file fails validation and the first poll "
             "answer takes 1.3 s: more failed verdicts than the retry channel holds, hand-off channels full at shutdown), refail (one file's first byte is damaged on the way the first 2..4 times it is sent: it fails validation again and again before the line is clean), vanish (a queued file disappears), eligible (young/hidden/ignored/lock/not-included files beside eligible ones); facts are computed "
             "from the recorded interface events; non-trivial = at least two requests; distinct = distinct scenario lines")
 E2E_NOTE = ("Trusted: Coq kernel (no axioms), harness (the in-process transport stands in for http.Client/http.Server; wrappers around Store and the sent-log "
@@ -112,8 +112,13 @@ PROPS = {
                  oracles=["chunk_not_contiguous_with_allocation", "emits_allocated_file"], diffs=["pop-slice", "pop-send"]),
             dict(name="send", pkg="./client/", test="TestVerifSend", min_lines=500,
                  oracles=["part_forwarded_twice", "forwarded_differs_from_reported_head"], diffs=[]),
+            # "every byte of every file is transmitted exactly once": what the encoder puts on the wire for a part is that
+            # part's byte range - also for several, not adjacent ranges of one file in one payload (a resumed file)
+            dict(name="wire", pkg="./payload/", test="TestVerifWire", min_lines=800, timeout_quick=600,
+                 oracles=["part_got_bytes_of_another_part"], diffs=["encoder-body"],
+                 env_quick={"VERIF_N": 250}, env_thorough={"VERIF_N": 4000}),
         ],
-        rule=QUEUE_RULE + (" chunk: exhaustive size 1..24 x chunk 1..9 x payload 10..32 (thorough 40x12x45) for one new file, payload sizes 1..9 sampled, "
+        rule=QUEUE_RULE + (" wire (the encoder's bytes per part, see C13) ") + (" chunk: exhaustive size 1..24 x chunk 1..9 x payload 10..32 (thorough 40x12x45) for one new file, payload sizes 1..9 sampled, "
               "every sorted disjoint record of <=3 ranges over 0..8 (thorough 0..11) x chunk {1,3,20}, plus seeded random cases of 1..3 files "
               "(new or resumed with shuffled records; exact multiples / one more / one less of chunk and payload; values up to 2^51); "
               "drives the real queue.Tagged, recover(), recoverFile, binnable, startBin, payload.Bin; non-trivial = a file split into several "
@@ -231,7 +236,8 @@ PROPS = {
         suites=[dict(STAGE_SUITE, oracles=["logged_twice", "logged_twice_after_record_aged_out", "logged_twice_single_version", "delivered_version_not_recognised", "delivered_version_not_recognised_single_version", "superseded_version_not_recognised"], diffs=["finals", "log", "received", "status", "stage-files"]),
                 race_suite(["logged_twice"]),
                 dict(name="redeliver", pkg="./http/", test="TestVerifRedeliver", min_lines=40, timeout_quick=600,
-                     oracles=["not_delivered_in_the_first_place", "delivered_version_logged_again_after_restart", "delivered_version_not_recognised_after_restart"],
+                     oracles=["not_delivered_in_the_first_place", "delivered_version_logged_again_after_restart", "delivered_version_not_recognised_after_restart",
+                              "delivered_version_logged_again"],
                      diffs=["retransmission-status"])],
         rule=STAGE_RULE + RACE_RULE + (" redeliver: the REAL http Client (Transmit / RecoverTransmission) -> Server (handleValidate, routeData, routeDataRecovery, "
               "payload.NewDecoder) -> stage.Stage -> log.FileIO over loopback, 6 time zones (UTC, -11, -8, -3, +9, +13 h) x file time of day (21:00, 03:00, 12:00 "
@@ -346,8 +352,15 @@ PROPS = {
                 # "the ordering chain continues from the files handled before the crash": recover() pushes the files the receiver
                 # holds completely as fully allocated placeholders; what the queue announces for the files behind them
                 dict(name="queue", pkg="./queue/", test="TestVerifQueue", min_lines=1000,
-                     oracles=["wrong_predecessor", "names_itself"], diffs=["pop-prev"])],
-        rule=E2E_RULE + CACHE_RULE + " " + QUEUE_RULE,
+                     oracles=["wrong_predecessor", "names_itself"], diffs=["pop-prev"]),
+                # the question "what do you hold of my files?" itself: the real http Client.Recover + stage.ReadCompanions against
+                # the real server in front of a real stage that is ready / not ready (503) / refuses the key (403)
+                dict(name="partials", pkg="./http/", test="TestVerifPartials", min_lines=12,
+                     oracles=["refused_partials_request_read_as_nothing_held", "partials_listing_differs_from_what_is_staged"],
+                     diffs=["partials-request-failed"])],
+        rule=E2E_RULE + CACHE_RULE + " " + QUEUE_RULE + (" partials: the real http Client.Recover with stage.ReadCompanions against the real "
+              "Server.handleValidate + routePartials in front of a real Stage holding 0..3 partly received files, the stage ready / not ready (503) / the key "
+              "refused (403): a refused request is an error, a served one lists exactly what is staged"),
         level_text=("Proof (plan level) + crash enumeration: the restart plan re-sends ranges only for an unconfirmed, unchanged, partly received file and "
                     "exactly the complement of what the receiver lists (missing_complement); an unconfirmed file is never skipped or marked done; nothing is "
                     "finished at restart without a positive answer. Sender crashes are injected at random interface-event indexes (all wrappers and cache "
@@ -361,7 +374,7 @@ PROPS = {
         coq="Properties/C17.v",
         suites=[dict(name="scan", pkg="./client/", test="TestVerifScan", min_lines=300, timeout_quick=600,
                      env_quick={"VERIF_N": 700}, env_thorough={"VERIF_N": 20000}),
-                e2e_suite("eligible,reuse,mutate,plain,swap", ["ineligible_file_sent_or_deleted", "delivered_mixture_of_versions", "not_delivered_within_bound", "source_gone_receiver_lacks_it"]),
+                e2e_suite("eligible,reuse,mutate,plain,swap,mutateyoung", ["ineligible_file_sent_or_deleted", "version_sent_before_its_minimum_age", "delivered_mixture_of_versions", "not_delivered_within_bound", "source_gone_receiver_lacks_it"]),
                 e2e_suite("crash", ["resent_bytes_receiver_reported_held"], n=8),
                 CACHE_SUITE],
         rule=CACHE_RULE + (" scan: the REAL store.Local.Scan + Broker.includeScannedFile + Broker.scan (hashing, cache.JSON) on generated trees (15 names: nested, hidden "
@@ -404,7 +417,7 @@ PROPS = {
         coq="Properties/C16.v",
         suites=[e2e_suite("stop", ["stop_now_did_not_terminate", "stop_now_not_prompt", "graceful_stop_did_not_terminate", "graceful_stop_left_work_undone", "confirmed_left_unrecorded_at_exit"], n=24),
                 e2e_suite("plain,faults,vanish", ["pipeline_never_drains_after_vanished_file"], n=8),
-                e2e_suite("stopfail,stopretry,stopjam,stopburst", ["graceful_stop_did_not_terminate", "stop_now_did_not_terminate", "stop_now_not_prompt", "graceful_stop_left_delivered_files_unpolled"], n=5),
+                e2e_suite("stopfail,stopretry,stopjam,stopburst,stophash", ["graceful_stop_did_not_terminate", "stop_now_did_not_terminate", "stop_now_not_prompt", "graceful_stop_left_delivered_files_unpolled"], n=5),
                 dict(CACHE_SUITE, oracles=["restart_finds_other_than_persisted"])],
         rule=E2E_RULE + CACHE_RULE,
         level_text=("Partial. Proof: every poll verdict resolves the file and only confirmed files are recorded done. Exploration: both kinds of stop injected at "
@@ -419,7 +432,7 @@ PROPS = {
         coq="Properties/C19.v",
         suites=[dict(name="conf", pkg=".", test="TestVerifConf", min_lines=1000),
                 dict(name="tags", pkg="./main/", test="TestVerifTags", min_lines=100, timeout_quick=600,
-                     env_quick={"VERIF_N": 150, "VERIF_INHERIT_N": 60}, env_thorough={"VERIF_N": 3000, "VERIF_INHERIT_N": 1500}),
+                     env_quick={"VERIF_N": 150, "VERIF_INHERIT_N": 60, "VERIF_IGNORE_N": 60}, env_thorough={"VERIF_N": 3000, "VERIF_INHERIT_N": 1500, "VERIF_IGNORE_N": 1500}),
                 e2e_suite("reuse", ["deleted_before_delete_delay"], n=9)],
         rule=("conf: seeded documents generated from the schema: 1..3 sources each with threads / min-age / compress / poll-attempts / out-dir / target "
               "(key, quic-enable-datagrams, http3-port) / stat-payload / include-hidden / error-backoff / include / ignore and 0..3 tags (priority, order, "
@@ -488,7 +501,10 @@ PROPS = {
         suites=[dict(name="wire", pkg="./payload/", test="TestVerifWire", min_lines=800, timeout_quick=600,
                      env_quick={"VERIF_N": 250}, env_thorough={"VERIF_N": 4000}),
                 dict(name="wirehttp", pkg="./http/", test="TestVerifWireHTTP", min_lines=200, timeout_quick=600,
-                     env_quick={"VERIF_N": 120}, env_thorough={"VERIF_N": 2500})],
+                     env_quick={"VERIF_N": 120}, env_thorough={"VERIF_N": 2500}),
+                # behind the decoder: a part the receiver does not need (a file it already has) must not shift the stream
+                dict(name="redeliver", pkg="./http/", test="TestVerifRedeliver", min_lines=40, timeout_quick=600,
+                     oracles=["part_behind_a_retransmitted_file_got_other_bytes"], diffs=[])],
         rule=("wire: the REAL Bin.Add / EncodeHeader / Encoder.Read and NewDecoder / Decoder.Next / PartDecoder.Read in memory: seeded payloads of 1..5 (1 in 12: "
               "6..35) parts; names, rename targets and predecessors of 1..4 segments from a 44-symbol alphabet (ASCII, space, 2/3/4-byte UTF-8, quote, backslash, "
               "<, >, &, control characters incl. \\b \\f, DEL, U+2028/9, U+FFFF, literal '\\u0041'), in the '/' and the '\\' convention and without a separator "
